@@ -1091,6 +1091,12 @@ func (repo *Repository) Save(ctx context.Context) error {
 	repo.Lock()
 	defer repo.Unlock()
 
+	// The main header files must only contain the most work chain, so the longest branch must be
+	// consolidated into the main branch before it is written to them.
+	if err := repo.consolidate(ctx); err != nil {
+		return errors.Wrap(err, "consolidate")
+	}
+
 	if err := repo.saveMainBranch(ctx); err != nil {
 		return errors.Wrap(err, "main branch")
 	}
